@@ -367,13 +367,23 @@ TypeOfAssign(x) == Unq(x.t)
 TypeOfMember(m, sq) == Qual(m.t, sq)
 
 (* 6.5.16.1p1 simple assignment / initialisation of a pointer from a pointer       *)
-(* (third and fourth bullet): accepted iff                                          *)
+(* (third and fourth bullet): accepted iff ...  "the type pointed to by the left    *)
+(* has all the qualifiers of the type pointed to by the right": in C11 an array      *)
+(* type is never itself qualified (6.7.3p9), so .q of an array pointee is {}.        *)
 PtrAssignOK(l, r) ==
   /\ IsPtr(l) /\ IsPtr(r)
   /\ \/ PtrTargetsCompatible(l, r)
      \/ (IsVoid(l.to) /\ IsObjType(r.to))
      \/ (IsVoid(r.to) /\ IsObjType(l.to))
-  /\ QualsOf(r.to) \subseteq QualsOf(l.to)
+  /\ r.to.q \subseteq l.to.q
+(* C23 6.7.3 makes an array and its elements identically qualified, which flips the   *)
+(* judgement for void* <-> pointer to array of qualified elements: not decided here.   *)
+(* void* <-> pointer to function is a constraint violation of 6.5.16.1 that has nothing to do  *)
+(* with 6.2.7 compatibility (cproc, like gcc/clang without -pedantic, lets it pass: a C10     *)
+(* matter); it is kept out of the pointer-assignment judgements generated for C05.            *)
+PtrAssignDecided(l, r) ==
+  /\ ~((IsVoid(l.to) /\ r.to.k = "arr" /\ QualsOf(r.to) # {}) \/ (IsVoid(r.to) /\ l.to.k = "arr" /\ QualsOf(l.to) # {}))
+  /\ ~((IsVoid(l.to) /\ r.to.k = "fn") \/ (IsVoid(r.to) /\ l.to.k = "fn"))
 
 (* ------------------------------------------------------------------------ *)
 (* Canonical names (JSON side: see harness/props/c05.py for the C spelling)   *)
